@@ -24,6 +24,24 @@ let unhex (h : string) : char list =
 let file_of kind hex = match kind with
   | "A" -> LogParse.FAbsent | "N" -> LogParse.FNotText | _ -> LogParse.FText (unhex (if hex = "-" then "" else hex))
 
+let rec nat_of_int n = if n <= 0 then Datatypes.O else Datatypes.S (nat_of_int (n - 1))
+
+let pos_of_z z = match z with BinNums.Zpos p -> p | _ -> failwith "mantissa"
+
+(* floats: z | nz | inf | ninf | nan | s,m,e *)
+let fl_of (s : string) : SpecFloat.spec_float = match s with
+  | "z" -> SpecFloat.S754_zero false | "nz" -> SpecFloat.S754_zero true
+  | "inf" -> SpecFloat.S754_infinity false | "ninf" -> SpecFloat.S754_infinity true
+  | "nan" -> SpecFloat.S754_nan
+  | _ -> (match String.split_on_char ',' s with
+      | [sg; m; e] -> SpecFloat.S754_finite (sg = "1", pos_of_z (z_of_string m), z_of_string e)
+      | _ -> failwith "float")
+
+let fl_s (x : SpecFloat.spec_float) : string = match x with
+  | SpecFloat.S754_zero false -> "z" | S754_zero true -> "nz"
+  | S754_infinity false -> "inf" | S754_infinity true -> "ninf" | S754_nan -> "nan"
+  | S754_finite (sg, m, e) -> Printf.sprintf "%s,%s,%s" (if sg then "1" else "0") (string_of_z (BinNums.Zpos m)) (string_of_z e)
+
 let table_of t = match t with
   | "base" -> GenTables.base_table
   | "rimi" -> Types.dict_union GenTables.rimi_table GenTables.base_table
@@ -111,6 +129,24 @@ let () =
              (string_of_z e.LogParse.e_nb_cycles) (string_of_z e.LogParse.e_tracing_ok)
              (string_of_z e.LogParse.e_instrs_nb) (hs e.LogParse.e_instrs_type) (hs e.LogParse.e_instrs_class))
          | LogParse.Raise e -> print_string ("RAISE " ^ exn_s e ^ "\n"))
+      | "tn" :: lo :: hi :: draws ->
+        (match Samplers.trunc_norm (fl_of lo) (fl_of hi) (List.map fl_of draws) with
+         | Some (x, rest) -> print_string (Printf.sprintf "%s %d\n" (fl_s x) (List.length draws - List.length rest))
+         | None -> print_string "NONE\n")
+      | [ "poisson"; fuel; lam; e; u ] ->
+        (match Samplers.generate_poisson (nat_of_int (int_of_string fuel)) (z_of_string lam) (fl_of e) (fl_of u) with
+         | Some k -> print_string (string_of_z k ^ "\n") | None -> print_string "NONE\n")
+      | [ "ztp"; fuel; lam; e; u ] ->
+        (match Samplers.generate_ztp (nat_of_int (int_of_string fuel)) (z_of_string lam) (fl_of e) (fl_of u) with
+         | Some k -> print_string (string_of_z k ^ "\n") | None -> print_string "NONE\n")
+      | [ "body"; ms; u; v ] ->
+        (match Samplers.body_size_of (z_of_string ms) (fl_of u) (fl_of v) with
+         | Some k -> print_string (string_of_z k ^ "\n") | None -> print_string "NONE\n")
+      | [ "calls"; b; cs; o ] ->
+        (match Samplers.call_nb_of (z_of_string b) (z_of_string cs) (fl_of o) with
+         | Some k -> print_string (string_of_z k ^ "\n") | None -> print_string "NONE\n")
+      | [ "kind"; r; u ] ->
+        print_string (if Samplers.kind_is_pic (fl_of r) (fl_of u) then "pic\n" else "method\n")
       | _ -> print_string "BAD\n")
     done
   with End_of_file -> ()
